@@ -18,7 +18,10 @@
 (*               kind 1 = connected, 2 = disconnected                      *)
 (*        bl |-> bl[k] = NotificationsSinceHeight(k) as ids, <<ERR>> on err*)
 (*        sync |-> index of the sync peer or 0, cur |-> 1 if "current",    *)
-(*        disc |-> per peer: disconnect requested]                         *)
+(*        disc |-> per peer: disconnect requested,                         *)
+(*        gh |-> per peer: <<>> or <<first locator id, stop id>> of the    *)
+(*               last getheaders the step pushed to it (conformance only:  *)
+(*               no clause reads it)]                                      *)
 (* act = [op, p, batch, k, res, nf]                                        *)
 (*   Headers: k = 0 plain; 1 = the driver made the batch write fail;       *)
 (*   10 + c = the process died after c store mutations; 20 + j / 30 + j =  *)
